@@ -210,7 +210,7 @@ func c03LiveHistory(r *ev.Run, label string, steps int) {
 		}
 
 		positions := func(vs []liveView) []int {
-			var p []int
+			p := []int{} // never nil: the model reads a nil list as "every message"
 			for _, v := range vs {
 				if mk, ok := uidOf[box][v.uid]; ok {
 					p = append(p, posOf[mk])
